@@ -34,15 +34,16 @@ CHECKS = {
     "C01": {
         "level": "exploration",
         "engine": "E1",
-        "needs_bins": [],
+        "needs_bins": ["mrp", "mrjob", "stagebin"],
         "technique": "property-based testing (rapid): generated programs x generated completion schedules on the real Pipestance with a hooked job manager, compared against an independent reference evaluator",
         "level_text": ("Every job's _args (and a join's _chunk_defs / _chunk_outs, in order) as found on disk when the job is handed to the job manager, and the top-level "
                        "_outs at completion, are compared with an independent reference evaluation of the generator's IR; ~2-3k pipestances per quick run. Exploration."),
         "level_note": "E1: jobs are completed in-process by the harness instead of running mrjob/stage processes; the schedule is owned by rapid.",
         "rule": _SEM_RULE + "Non-trivial (C01): >= 2 stage jobs and at least one of map call / disabled modifier / projection / sub-pipeline; distinct by hash(program, schedule).",
         "assumptions": _SEM_ASSUME,
-        "units": [U("props/run", "TestRunSemantics", (700, 14), (12000, 15), env={"VERIF_STATS_PROP": "C01"})],
-        "floors": {"quick": {"map-call:array": 200, "map-call:map": 80, "disabled-true": 150, "projection": 300, "sub-pipeline": 300, "split-stage": 300, "map-source:dynamic": 60}},
+        "units": [U("props/run", "TestRunSemantics", (700, 14), (12000, 15), env={"VERIF_STATS_PROP": "C01"}),
+                  U("props/run", "TestE2Run", (60, 6), (1500, 8))],
+        "floors": {"quick": {"map-call:array": 200, "map-call:map": 80, "disabled-true": 150, "projection": 300, "sub-pipeline": 300, "split-stage": 300, "map-source:dynamic": 60, "e2-run": 250}},
     },
     "C02": {
         "level": "exploration",
@@ -134,6 +135,7 @@ CHECKS = {
     "C12": {
         "level": "exploration",
         "engine": "pure",
+        "needs_bins": ["mrp", "mrjob", "stagebin"],
         "technique": "property-based testing (rapid stateful/model-based): FIFO semaphore model vs ResourceSemaphore, slot model vs MaxJobsSemaphore, range oracle for request clamping",
         "level_text": ("Model-based stateful search through the exported API: generated sequences of acquire (blocking, in goroutines) / release / availability-update "
                        "operations on ResourceSemaphore checked after every step against a FIFO model (reserved <= max, grants only from the head and in request order, "
@@ -150,8 +152,9 @@ CHECKS = {
             U("props/sys", "TestC12ResourceSemaphore", (3000, 4), (40000, 8)),
             U("props/sys", "TestC12MaxJobs", (1500, 3), (20000, 4)),
             U("props/sys", "TestC12SystemReqs", (20000, 1), (300000, 2)),
+            U("props/run", "TestE2Resources", (40, 6), (1200, 8)),
         ],
-        "floors": {"quick": {"semaphore": 5000, "maxjobs": 2000, "systemreqs": 10000}},
+        "floors": {"quick": {"semaphore": 5000, "maxjobs": 2000, "systemreqs": 10000, "e2-resources": 150, "jobs-overlapped": 40}},
     },
     "C04": {
         "level": "exploration",
@@ -175,7 +178,7 @@ CHECKS = {
     "C05": {
         "level": "exploration",
         "engine": "E1",
-        "needs_bins": [],
+        "needs_bins": ["mrp", "mrjob", "stagebin"],
         "technique": "property-based testing (rapid): generated program x schedule x 1-3 interruptions at generated moments; fault injection at the level of the pipestance object (abandon + re-attach, as a restarted mrp does) with a generated fate for every job in flight; differential against the reference model and an undisturbed run of the same program",
         "level_text": ("Programs of the C01 generator (<= 60 jobs) x schedules x interruptions: the Pipestance object is abandoned between any two harness actions (after a job wrote its "
                        "completion marker but before mrp refreshed, between refresh and step, right after dynamic forks were expanded, after the final VDR pass, after post-processing); every job in "
@@ -188,13 +191,14 @@ CHECKS = {
         "rule": ("rapid program + schedule + interruption points and fates; non-trivial: an interruption fell strictly inside the run (>= 1 job finished, >= 1 in flight); distinct by hash(program, history); "
                  "classes: fate of in-flight jobs, number of interruptions, during-cleanup / after-cleanup."),
         "assumptions": _SEM_ASSUME + ["a job that is running records its pid in _jobinfo and the job manager removes _queued_locally when it starts the process, as the local job manager and mrjob do"],
-        "units": [U("props/run", "TestInterrupt", (800, 10), (15000, 10))],
-        "floors": {"quick": {"inside-run": 1500, "fate:queued": 300, "fate:dead-running": 300, "fate:dead-after-outs": 300, "fate:killed-with-error": 300, "fate:finished-unnoticed": 300, "fate:alive": 300, "fate:during-cleanup": 300, "fate:after-cleanup": 300}},
+        "units": [U("props/run", "TestInterrupt", (800, 10), (15000, 10)),
+                  U("props/run", "TestE2Interrupt", (20, 6), (600, 8))],
+        "floors": {"quick": {"inside-run": 1500, "fate:queued": 300, "fate:dead-running": 300, "fate:dead-after-outs": 300, "fate:killed-with-error": 300, "fate:finished-unnoticed": 300, "fate:alive": 300, "fate:during-cleanup": 300, "fate:after-cleanup": 300, "e2": 80, "signal:TERM": 8, "signal:INT": 8, "signal:KILL": 8}},
     },
     "C06": {
         "level": "exploration",
         "engine": "E1",
-        "needs_bins": [],
+        "needs_bins": ["mrp", "mrjob", "stagebin"],
         "technique": "property-based testing (rapid): generated program x schedule x failure site (any job) x failure manifestation, 1-2 successive faults; fault injection through the files a failing job leaves behind; oracle = invariants at failure + differential against the reference model after restart",
         "level_text": ("Programs of the C01 generator (<= 60 jobs) x schedules x a generated job as the failure site (split, chunk, main, join; mapped and dynamically forked calls; preflights) x "
                        "manifestation: _errors with the text mrjob records (non-zero exit, signal, python traceback, out of memory), _assert, _outs cut off in the middle, _outs missing a "
@@ -208,9 +212,10 @@ CHECKS = {
         "rule": ("rapid program + schedule + site + manifestation; non-trivial: the failed call has >= 1 dependent and >= 1 independent call; distinct by hash(program, history); classes: kind of "
                  "failure, phase of the failing job, has-dependents, has-independents."),
         "assumptions": _SEM_ASSUME,
-        "units": [U("props/run", "TestFaults", (1200, 10), (20000, 10))],
+        "units": [U("props/run", "TestFaults", (1200, 10), (20000, 10)),
+                  U("props/run", "TestE2Faults", (40, 6), (1200, 8))],
         "floors": {"quick": {"kind:errors": 1000, "kind:assert": 500, "kind:invalid-outs": 200, "kind:missing-key": 200, "kind:wrong-type": 200, "kind:bad-stage-defs": 100,
-                             "phase:split": 300, "phase:chunk": 300, "phase:join": 300, "phase:main": 1000, "has-dependents": 800, "has-independents": 1500}},
+                             "phase:split": 300, "phase:chunk": 300, "phase:join": 300, "phase:main": 1000, "has-dependents": 800, "has-independents": 1500, "e2": 150, "kind:exit": 20, "kind:signal": 20, "autoretry:2": 30}},
     },
     "C07": {
         "level": "exploration",
@@ -307,6 +312,7 @@ CHECKS = {
     "C15": {
         "level": "exploration",
         "engine": "pure",
+        "needs_bins": ["mrp", "mrjob", "stagebin"],
         "technique": "property-based testing (rapid): metamorphic pairs (program, program after one cosmetic or one semantic edit in the transitive closure of the top-level call) against Ast.EquivalentCall in both orientations",
         "level_text": ("Pairs (A, B): B is A re-laid-out, re-commented, with old-style modifiers, split over an include diamond, or with a file type renamed (must be equivalent both ways), or A "
                        "after exactly one meaning-changing edit at depth 0-3 of the call closure - call alias, a literal deep inside an argument, swapped same-typed bindings / return bindings, "
@@ -315,8 +321,9 @@ CHECKS = {
         "level_note": "The run-time refusal (Runtime.ReattachToPipestance) delegates to EquivalentCall after a byte comparison; mutual exclusion of two live mrp processes is part of the E2 tier (not yet built).",
         "rule": "rapid program generator (4 pipelines deep) x one edit; every pair is non-trivial; distinct by hash(original text, edited text); classes: edit kind x depth.",
         "assumptions": ["edits are applied to the generator's IR and printed; an edit that makes the program stop compiling is skipped and counted"],
-        "units": [U("props/lang", "TestC15Equivalence", (6000, 8), (100000, 10))],
-        "floors": {"quick": {"semantic": 10000, "cosmetic": 10000, "edit:repoint-disabled": 100, "edit:rename-filetype": 500, "edit:includes": 2000}},
+        "units": [U("props/lang", "TestC15Equivalence", (6000, 8), (100000, 10)),
+                  U("props/run", "TestE2Lock", (20, 6), (500, 8))],
+        "floors": {"quick": {"semantic": 10000, "cosmetic": 10000, "edit:repoint-disabled": 100, "edit:rename-filetype": 500, "edit:includes": 2000, "e2-lock": 80}},
     },
     "C19": {
         "level": "exploration",
